@@ -78,7 +78,7 @@ where
     T::F: ProgTy,
 {
     let mut acc = Acc::new();
-    let ncases = ctx.n(200, 20000);
+    let ncases = ctx.n(200, 400000);
     let u = unit_roundoff::<T>();
     ndv_core::track::set_u(u);
     let leaf = ndv_core::Shape::Leaf;
@@ -206,7 +206,7 @@ where
     let mut acc = Acc::new();
     let mut rng = Rng::stream(ctx.seed, 650 + tindex, shard as u64);
     let specials: Vec<f64> = vec![0.0, -0.0, 1.0, -1.0, 1e-30, -1e-30, 1e30, 2.5, -2.5, 0.1];
-    for _ in 0..ctx.n(300, 20000) {
+    for _ in 0..ctx.n(300, 300000) {
         let shape = T::shape((1 + rng.below(3), 1));
         let b = Basis::new(&shape);
         let a0 = *rng.choose(&specials);
@@ -286,7 +286,7 @@ fn float_instances(ctx: &Ctx, shard: usize) -> Acc {
     let mut rng = Rng::stream(ctx.seed, 699, shard as u64);
     macro_rules! one {
         ($f:ty, $name:expr) => {{
-            for _ in 0..ctx.n(300, 30000) {
+            for _ in 0..ctx.n(300, 500000) {
                 let x = (rng.sign() * rng.logu(1e-3, 30.0)) as $f;
                 let y = (rng.sign() * rng.logu(1e-3, 30.0)) as $f;
                 let z = rng.part() as $f;
